@@ -157,6 +157,34 @@ func C13(c *fw.Ctx) {
 			}
 		}
 	}
+	// A3: every built-in handed an object (several properties whose values are equal under == but not
+	// identical -- both zeros -- a NaN, numbers, a text) alone, first and last: whatever it answers, it
+	// answers the same under every iteration order
+	for _, b := range model.Builtins {
+		for form := 0; form < 3; form++ {
+			if !c.Mine() {
+				continue
+			}
+			ob := func() *model.N {
+				return model.Obj([]string{"pz", "nz", "nn", "five", "tx"}, []*model.N{model.Num(0), model.Un("-", model.Num(0)),
+					model.Grp(model.Bin("-", model.Grp(model.Bin("**", model.Num(10), model.Num(400))), model.Grp(model.Bin("**", model.Num(10), model.Num(400))))), model.Num(5), model.Str("t")})
+			}
+			small := func() *model.N { return model.Obj([]string{"pz", "nz"}, []*model.N{model.Num(0), model.Un("-", model.Num(0))}) }
+			var calls []*model.N
+			switch form {
+			case 0:
+				calls = []*model.N{model.CallN(b, ob()), model.CallN(b, small())}
+			case 1:
+				calls = []*model.N{model.CallN(b, ob(), model.Num(1)), model.CallN(b, small(), model.Str("pz"))}
+			case 2:
+				calls = []*model.N{model.CallN(b, model.Num(1), ob()), model.CallN(b, model.Arr(model.Num(1)), small())}
+			}
+			for _, call := range calls {
+				prog := []*model.N{T("before"), model.Print(call), T("after")}
+				oneOutcome(c, model.Render(parenAll(prog)), "line\n", "builtin-on-object|"+b)
+			}
+		}
+	}
 	// B: objects built by writes in every order, then deletes
 	for n := 1; n <= 4; n++ {
 		for _, perm := range permutations(n) {
